@@ -1,6 +1,8 @@
 package ast
 
 import (
+	"slices"
+
 	"gopkg.in/yaml.v3"
 
 	"github.com/go-task/task/v3/errors"
@@ -65,6 +67,9 @@ func (c *Cmd) UnmarshalYAML(node *yaml.Node) error {
 		}
 		if err := node.Decode(&cmdStruct); err != nil {
 			return errors.NewTaskfileDecodeError(err, node)
+		}
+		if slices.Contains(cmdStruct.Platforms, nil) {
+			return errors.NewTaskfileDecodeError(nil, node).WithMessage("platforms cannot contain null entries")
 		}
 		if cmdStruct.Defer != nil {
 
